@@ -17,11 +17,11 @@ F(S) == [k \in {x[1] : x \in S} |-> (CHOOSE x \in S : x[1] = k)[2]]      \* set 
 UOpts == {"none", "plain", "filterA", "filterB", "gp", "gp+filterA"}
 GOpts == {"idle60", "idle30", "pool", "filterA"}
 
-Build(uopt, idle, gopt, topt, sfx, ovl) ==
+Build(uopt, idle, gopt, topt, sfx, ovl, two) ==
   LET gen   == sfx # ""
       aclA  == "vpnfA" \o sfx    aclB == "vpnfB" \o sfx   gpn == "VPN-group" \o sfx   pooln == "pool" \o sfx
       cmn   == "ca-map" \o sfx   tgn == "VPN-tunnel" \o sfx
-      useGp == uopt \in {"gp", "gp+filterA"} \/ topt = "map"
+      useGp == uopt \in {"gp", "gp+filterA"} \/ topt = "map" \/ ovl = "foreign-tg"
       useA  == uopt \in {"filterA", "gp+filterA"} \/ (useGp /\ gopt = "filterA")
       useB  == uopt = "filterB"
       usePool == useGp /\ gopt = "pool"
@@ -38,7 +38,9 @@ Build(uopt, idle, gopt, topt, sfx, ovl) ==
                    \cup (IF gopt = "idle30" THEN {L("attributes", "vpn-idle-timeout 30", <<>>)} ELSE {L("attributes", "vpn-idle-timeout 60", <<>>)})
                    \cup (IF gopt = "pool" THEN {L("attributes", "address-pools value $", <<Key("pool", pooln)>>)} ELSE {})
                    \cup (IF gopt = "filterA" THEN {L("attributes", "vpn-filter value $", <<Key("acl", aclA)>>)} ELSE {}))>>}
-      acls  == (IF useA THEN {<<Key("acl", aclA), O("acl", aclA, gen, {L("", "extended permit ip host 10.1.1.1 any4", <<>>)})>>} ELSE {})
+      acls  == (IF useA THEN {<<Key("acl", aclA), O("acl", aclA, gen,
+                                  {L("", "extended permit ip host 10.1.1.1 any4", <<>>)}
+                                  \cup (IF two THEN {L("", "extended permit ip host 10.1.1.3 any4", <<>>)} ELSE {}))>>} ELSE {})
                \cup (IF useB THEN {<<Key("acl", aclB), O("acl", aclB, gen, {L("", "extended permit ip host 10.1.1.2 any4", <<>>)})>>} ELSE {})
       pool  == IF usePool THEN {<<Key("pool", pooln), O("pool", pooln, gen, {L("", "10.1.219.192-10.1.219.255 mask 0.0.0.63", <<>>)})>>} ELSE {}
       chain == IF topt # "map" THEN {} ELSE
@@ -50,6 +52,10 @@ Build(uopt, idle, gopt, topt, sfx, ovl) ==
                {<<Key("gp", "foreign-gp"), O("gp", "foreign-gp", FALSE, {L("", "internal", <<>>),
                                                L("attributes", "vpn-filter value $", <<Key("acl", "foreign-acl")>>)})>>,
                 <<Key("acl", "foreign-acl"), O("acl", "foreign-acl", FALSE, {L("", "extended permit ip host 10.1.2.2 any4", <<>>)})>>}
+               ELSE IF ovl = "foreign-tg" THEN
+               \* a hand-made tunnel-group that uses the (possibly generated) group-policy of the device
+               {<<Key("tg", "UNKNOWN"), O("tg", "UNKNOWN", FALSE, {L("", "type remote-access", <<>>),
+                                               L("general-attributes", "default-group-policy $", <<Key("gp", gpn)>>)})>>}
                ELSE IF ovl = "leftover" THEN
                {<<Key("gp", "old-DRC-7"), O("gp", "old-DRC-7", TRUE, {L("", "internal", <<>>)})>>}
                ELSE {}
@@ -57,13 +63,17 @@ Build(uopt, idle, gopt, topt, sfx, ovl) ==
 
 F5 ==
   \E ud, ut \in UOpts, id, it \in {"60", "30"}, gd, gt \in GOpts, td, tt \in {"none", "map"},
-     sfx \in {"", "-DRC-0"}, ovl \in {"none", "foreign", "leftover"} :
-    /\ (ud \notin {"gp", "gp+filterA"} /\ td = "none") => gd = "idle60"      \* group-policy unused: one representative
+     sfx \in {"", "-DRC-0"}, ovl \in {"none", "foreign", "foreign-tg", "leftover"}, twod, twot \in BOOLEAN :
+    /\ (ud \notin {"gp", "gp+filterA"} /\ td = "none" /\ ovl # "foreign-tg") => gd = "idle60"   \* group-policy unused: one representative
     /\ (ut \notin {"gp", "gp+filterA"} /\ tt = "none") => gt = "idle60"
     /\ (ud = "none") => id = "60"
     /\ (ut = "none") => it = "60"
-    /\ dev = Build(ud, id, gd, td, sfx, ovl)
-    /\ tgt = Build(ut, it, gt, tt, "", "none")
+    \* the filter ACL has one or two lines (line edits of an ACL that a sub-command references)
+    /\ (~(ud \in {"filterA", "gp+filterA"} \/ gd = "filterA") => ~twod)
+    /\ (ovl = "foreign-tg" /\ ud \notin {"gp", "gp+filterA"} /\ td = "none" => sfx = "-DRC-0")
+    /\ (~(ut \in {"filterA", "gp+filterA"} \/ gt = "filterA") => ~twot)
+    /\ dev = Build(ud, id, gd, td, sfx, ovl, twod)
+    /\ tgt = Build(ut, it, gt, tt, "", "none", twot)
 
 Init == Fam = "F5" /\ F5
 Next == UNCHANGED <<dev, tgt>>
